@@ -866,6 +866,25 @@ fn main() {
         for i in 0..n_large {
             shapes.push(large_shape(&ctx, i));
         }
+        // fixed shapes: two chopped commitments whose pieces have identical content behind distinct
+        // references (equal by value, different by reference), at the same point and at
+        // different points — both are honest, distinct commitments
+        for (tag, pts) in [("same-point", [0usize, 0]), ("other-point", [0usize, 1])] {
+            for k in [3u32, 5] {
+                shapes.push(Shape {
+                    label: format!("fixed/chopped-twins-{tag}/{k}"),
+                    family: "random-larger-chopped",
+                    k,
+                    kinds: vec!["random-degree", "copy-of-previous", "full-degree", "copy-of-previous"],
+                    n_points: 2,
+                    assign: vec![vec![0], vec![1], vec![0, 1], vec![1]],
+                    chops: vec![
+                        Chop { pieces: vec![0, 2], point: pts[0], n_param: 1 << k },
+                        Chop { pieces: vec![1, 3], point: pts[1], n_param: 1 << k },
+                    ],
+                });
+            }
+        }
         rep.set("planned", json!({"small_patterns": n_small, "small_patterns_total": 2800, "random_larger": n_large}));
         rep.min_nontrivial = if san { 10 } else { ctx.tier.pick(10_000, 150_000) };
     }
